@@ -2,7 +2,8 @@
    Print Assumptions only. The pins in tools/pins/C17.v re-check the statements. *)
 From Coq Require Import List NArith Bool Sorted.
 From V.gen Require Consts.
-From V.C17 Require Import Model Proofs.
+From V.C17 Require Import Model Proofs Timed TimedProofs Ingress IngressProofs.
+From V.C17 Require Glue GlueProofs.
 Import ListNotations.
 Open Scope N_scope.
 
@@ -138,3 +139,307 @@ Theorem C17_default_config :
              V.gen.Consts.DEFAULT_MAX_PROVIDERS_PER_KEY ttl) h).
 Proof. exact default_config_inv. Qed.
 Print Assumptions C17_default_config.
+
+(* ================================================================================================
+   Round 2: the clock at the exact boundary, the refresh machinery (Timed.v) and the callers of the
+   store in the Kademlia event loop (Ingress.v).
+   ================================================================================================ *)
+
+(* ---- expiry at the exact boundary: `now >= expires` means expired ---- *)
+Theorem C17_expiry_boundary_record :
+  forall r now, rec_expired r now = true <-> exists t, r_exp r = Some t /\ t <= now.
+Proof. exact rec_expired_iff. Qed.
+Print Assumptions C17_expiry_boundary_record.
+
+Theorem C17_expiry_boundary_provider :
+  forall p now, prov_expired p now = true <-> p_exp p <= now.
+Proof. exact prov_expired_iff. Qed.
+Print Assumptions C17_expiry_boundary_provider.
+
+(* complete characterisation of the reads: exactly the stored entries whose expiry lies strictly
+   after the clock reading are returned (nothing expired is returned, nothing fresh is withheld) *)
+Theorem C17_get_complete :
+  forall s k now r,
+  snd (get s k now) = Some r <->
+  find_rec k (recs s) = Some r /\ (forall t, r_exp r = Some t -> now < t).
+Proof. exact get_complete. Qed.
+Print Assumptions C17_get_complete.
+
+Theorem C17_get_providers_complete :
+  forall s k now p,
+  In p (snd (get_providers s k now)) <->
+  exists ps, find_pk k (pkeys s) = Some ps /\ In p ps /\ now < p_exp p.
+Proof. exact get_providers_complete. Qed.
+Print Assumptions C17_get_providers_complete.
+
+(* an accepted announcement is stored with expiry `now + provider_ttl`, the address list cut to
+   max_provider_addresses *)
+Theorem C17_provider_expiry :
+  forall c s k pid dist naddr now ps' p,
+  find_pk k (pkeys (fst (put_provider c s k pid dist naddr now))) = Some ps' ->
+  In p ps' -> p_dist p = dist ->
+  snd (put_provider c s k pid dist naddr now) = true ->
+  Inv c s -> 1 <= max_per_key c ->
+  p = mkProv pid dist (N.min naddr (max_addrs c)) (now + ttl c).
+Proof. exact put_provider_expiry. Qed.
+Print Assumptions C17_provider_expiry.
+
+(* ---- the timed store: same maps, plus local_providers' quorum and the refresh futures ---- *)
+
+(* every timed history performs exactly the Model.v operations it names on the maps *)
+Theorem C17_timed_refines_store :
+  forall c i h ts, ts_store (fst (trun c i ts h)) = fst (run c (ts_store ts) (erase_h h)).
+Proof. exact trun_store. Qed.
+Print Assumptions C17_timed_refines_store.
+
+Theorem C17_timed_bounds_sorted :
+  forall c i h, 1 <= max_per_key c -> Inv c (ts_store (tfinal c i h)).
+Proof. exact tfinal_inv. Qed.
+Print Assumptions C17_timed_bounds_sorted.
+
+(* no read of any history, at any clock readings, returns an expired record or provider *)
+Theorem C17_history_fresh :
+  forall c i h ts n o now x,
+  nth_error h n = Some (o, now) -> nth_error (snd (trun c i ts h)) n = Some x -> out_fresh now x.
+Proof. exact trun_out_fresh. Qed.
+Print Assumptions C17_history_fresh.
+
+(* local_providers: the quorum map has exactly the keys of `locals`, after every history *)
+Theorem C17_local_providers_sync :
+  forall c i h, QSync (tfinal c i h).
+Proof. exact tfinal_sync. Qed.
+Print Assumptions C17_local_providers_sync.
+
+(* a RefreshProvider action names a key that is provided at that moment, with the quorum stored
+   for it; a completed future of a key that is not provided yields nothing *)
+Theorem C17_refresh_only_provided :
+  forall c i h n now l k q,
+  nth_error h n = Some (TPoll, now) ->
+  nth_error (snd (trun c i empty_tstore h)) n = Some (TFired l) ->
+  In (k, Some q) l ->
+  exists tsn, In k (locals (ts_store tsn)) /\ find_q k (ts_quorum tsn) = Some q /\
+              tsn = fst (trun c i empty_tstore (firstn n h)).
+Proof. exact refresh_only_provided. Qed.
+Print Assumptions C17_refresh_only_provided.
+
+(* every completed refresh future was scheduled by a successful put_local_provider of the same
+   key at least `provider_refresh_interval` earlier (monotone clock) *)
+Theorem C17_refresh_after_interval :
+  forall c i h n now l k r,
+  mono 0 h ->
+  nth_error h n = Some (TPoll, now) ->
+  nth_error (snd (trun c i empty_tstore h)) n = Some (TFired l) ->
+  In (k, r) l ->
+  exists m o dist b, (m < n)%nat /\ nth_error h m = Some (o, b) /\
+    erase o = Some (OPutLocal k dist) /\
+    nth_error (snd (trun c i empty_tstore h)) m = Some (TOut (RBool true)) /\
+    b + i <= now.
+Proof. exact refresh_after_interval. Qed.
+Print Assumptions C17_refresh_after_interval.
+
+(* a poll leaves only armed futures whose deadline lies strictly in the future: a due future is
+   never skipped *)
+Theorem C17_poll_fires_all_due :
+  forall c i ts now,
+  Forall (fun t => exists d, tm_due t = Some d /\ now < d) (ts_timers (fst (tstep c i ts TPoll now))).
+Proof. exact poll_rest_armed. Qed.
+Print Assumptions C17_poll_fires_all_due.
+
+(* bookkeeping of pending_provider_refresh: +1 per successful put_local_provider, -1 per completed
+   future, nothing else *)
+Theorem C17_refresh_future_count :
+  forall c i ts o now,
+  length (ts_timers (fst (tstep c i ts o now))) =
+  match o with
+  | TPoll => (length (ts_timers ts) - length (fired_timers i ts now))%nat
+  | _ =>
+      match erase o with
+      | Some (OPutLocal k dist) =>
+          if snd (put_local_provider c (ts_store ts) k dist now)
+          then S (length (ts_timers ts)) else length (ts_timers ts)
+      | _ => length (ts_timers ts)
+      end
+  end.
+Proof. exact tstep_timers_count. Qed.
+Print Assumptions C17_refresh_future_count.
+
+(* observation (outside the property text): pending_provider_refresh is bounded by no configured
+   limit — n StartProviding calls for one key leave n futures *)
+Theorem C17_refresh_futures_unbounded :
+  forall c i k dist q, 1 <= max_keys c ->
+  forall n, length (ts_timers (tfinal c i (repeat (TPutLocal k dist q, 0) n))) = n.
+Proof. exact timers_unbounded. Qed.
+Print Assumptions C17_refresh_futures_unbounded.
+
+(* ---- the Kademlia event loop around the store ---- *)
+
+(* whatever the loop does to the maps is a sequence of the six store operations *)
+Theorem C17_loop_only_store_ops :
+  forall kc h st, Reach (k_scfg kc) (kstore st) (kstore (fst (krun kc st h))).
+Proof. exact krun_reach. Qed.
+Print Assumptions C17_loop_only_store_ops.
+
+(* hence all bounds, uniqueness and sortedness hold after every history of network messages,
+   user commands and timer expiries, in every configuration and validation mode *)
+Theorem C17_loop_bounds_sorted :
+  forall kc h, 1 <= max_per_key (k_scfg kc) -> Inv (k_scfg kc) (kstore (kfinal kc h)).
+Proof. exact kfinal_inv. Qed.
+Print Assumptions C17_loop_bounds_sorted.
+
+(* and no stored provider has more than MAX_ADDRESSES (types.rs) addresses either, whatever
+   max_provider_addresses is *)
+Theorem C17_loop_address_bound :
+  forall kc h, 1 <= max_per_key (k_scfg kc) ->
+  Forall (fun kp : N * list prov => Forall (fun p => p_naddr p <= WIRE_MAX_ADDRS) (snd kp))
+         (pkeys (kstore (kfinal kc h))).
+Proof. exact kfinal_addr_bound. Qed.
+Print Assumptions C17_loop_address_bound.
+
+(* IncomingRecordValidationMode::Manual: a remote peer cannot add or alter a record *)
+Theorem C17_manual_mode_no_remote_record :
+  forall kc st e,
+  ks_dead st = false -> remote e = true -> k_auto kc = false ->
+  forall k r, find_rec k (recs (kstore (fst (kstep kc st e)))) = Some r ->
+              find_rec k (recs (kstore st)) = Some r.
+Proof. exact manual_mode_no_remote_record. Qed.
+Print Assumptions C17_manual_mode_no_remote_record.
+
+(* a remote peer can only ever add itself as a provider *)
+Theorem C17_remote_adds_only_sender :
+  forall kc st e from,
+  ks_dead st = false ->
+  match e with
+  | KPutValue f _ _ _ _ _ | KAddProvider f _ _ | KGetValue f _ | KGetProviders f _ => f = from
+  | _ => False
+  end ->
+  forall key ps' p, find_pk key (pkeys (kstore (fst (kstep kc st e)))) = Some ps' -> In p ps' ->
+    (exists ps, find_pk key (pkeys (kstore st)) = Some ps /\ In p ps) \/ p_id p = from.
+Proof. exact remote_adds_only_sender. Qed.
+Print Assumptions C17_remote_adds_only_sender.
+
+(* a remote peer cannot change which keys the node announces itself, nor their quorum *)
+Theorem C17_remote_keeps_local_registrations :
+  forall kc st e,
+  ks_dead st = false -> remote e = true ->
+  ts_quorum (ks_t (fst (kstep kc st e))) = ts_quorum (ks_t st) /\
+  locals (kstore (fst (kstep kc st e))) = locals (kstore st).
+Proof. exact remote_keeps_local_registrations. Qed.
+Print Assumptions C17_remote_keeps_local_registrations.
+
+(* GET_VALUE answers (and local GetRecord hits): stored, unexpired, positive remaining ttl *)
+Theorem C17_served_record_fresh :
+  forall kc st e key r ttl,
+  ks_dead st = false ->
+  (exists from, e = KGetValue from key) \/ e = KCmdGetRecord key ->
+  snd (kstep kc st e) = KRec (Some (r, ttl)) ->
+  r_key r = key /\ In r (recs (kstore st)) /\ rec_expired r (ks_now st) = false /\
+  match ttl with Some d => exists t, r_exp r = Some t /\ ks_now st < t /\ d = t - ks_now st
+               | None => r_exp r = None end.
+Proof. exact served_record_fresh. Qed.
+Print Assumptions C17_served_record_fresh.
+
+(* GET_PROVIDERS answers: exactly the unexpired stored providers, in stored order *)
+Theorem C17_served_providers_fresh :
+  forall kc st from key l,
+  ks_dead st = false ->
+  snd (kstep kc st (KGetProviders from key)) = KProvs l ->
+  exists ps, ps = snd (get_providers (kstore st) key (ks_now st)) /\
+    l = map (fun p => (p_id p, serve_addrs kc p)) ps /\
+    Forall (fun p => prov_expired p (ks_now st) = false) ps /\
+    Forall (fun x : N * N => snd x <= WIRE_MAX_ADDRS) l.
+Proof. exact served_providers_fresh. Qed.
+Print Assumptions C17_served_providers_fresh.
+
+(* after every event every pending refresh future is armed with a deadline in the future *)
+Theorem C17_loop_refresh_armed :
+  forall kc st e,
+  ks_dead st = false -> ks_dead (fst (kstep kc st e)) = false -> KArmed (fst (kstep kc st e)).
+Proof. exact kstep_armed. Qed.
+Print Assumptions C17_loop_refresh_armed.
+
+(* one entry per provider under the real metric d(key, peer) = H(peer) xor H(key): the hypothesis
+   "d is injective in the peer" of C17_no_provider_twice reduces to "distinct peers have distinct
+   hashes" *)
+Theorem C17_no_provider_twice_xor :
+  forall (hk hp : N -> N) c h,
+  1 <= max_per_key c -> (forall a b, hp a = hp b -> a = b) ->
+  history_consistent (fun k p => N.lxor (hp p) (hk k)) h ->
+  Forall (fun kp => NoDup (map p_id (snd kp))) (pkeys (final c h)).
+Proof. exact no_provider_twice_xor. Qed.
+Print Assumptions C17_no_provider_twice_xor.
+
+(* constants regenerated from config.rs / types.rs: the default refresh interval is shorter than
+   the default provider TTL, and the default address limit is below MAX_ADDRESSES *)
+Theorem C17_default_refresh_before_expiry :
+  V.gen.Consts.DEFAULT_PROVIDER_REFRESH_INTERVAL_SECS < V.gen.Consts.DEFAULT_PROVIDER_TTL_SECS /\
+  V.gen.Consts.DEFAULT_MAX_PROVIDER_ADDRESSES <= V.gen.Consts.KAD_MAX_ADDRESSES.
+Proof. exact default_refresh_before_expiry. Qed.
+Print Assumptions C17_default_refresh_before_expiry.
+
+(* non-vacuity of the refresh model: a future fires exactly at its deadline, not one unit before *)
+Example C17_refresh_nonvacuous :
+  let c := mkCfg 2 10 2 1 2 100 in
+  let h := [(TPutLocal 7 5 3, 10); (TPoll, 12); (TPoll, 21); (TPoll, 22); (TPoll, 23)] in
+  snd (trun c 10 empty_tstore h) =
+  [TOut (RBool true); TFired []; TFired []; TFired [(7, Some 3)]; TFired []].
+Proof. vm_compute. reflexivity. Qed.
+
+(* non-vacuity of the loop model: Manual mode drops the remote record, an announcement by a third
+   party is ignored, the sender's own announcement (after an undecodable entry) is stored with 32
+   of 40 addresses *)
+Example C17_loop_nonvacuous :
+  let kc := mkK (mkCfg 4 10 4 50 4 100) 5 false 8 20 0 in
+  let h := [KPutValue 3 1 7 2 0 5; KAddProvider 3 1 [(4, 9, 1, 1)]; KAddProvider 3 1 [(5, 2, 1, 0); (3, 6, 40, 1)]] in
+  recs (kstore (kfinal kc h)) = [] /\
+  map (fun kp : N * list prov => (fst kp, map (fun p => (p_id p, p_naddr p)) (snd kp))) (pkeys (kstore (kfinal kc h)))
+    = [(1, [(3, 32)])].
+Proof. vm_compute. split; reflexivity. Qed.
+
+(* the Rust source still has the shape the model was written for: exactly the eight public store
+   methods, exactly the thirteen call sites of the store in kademlia/mod.rs (one per event of the
+   loop model), the enum variants the harness enumerates, the configuration fields with their
+   default constants and builder setters, one clock read behind the helper with three call sites *)
+Theorem C17_source_tables_covered :
+  V.gen.C17Tables.store_methods = model_store_methods /\
+  V.gen.C17Tables.store_call_sites = model_call_sites /\
+  V.gen.C17Tables.store_actions = [0] /\
+  V.gen.C17Tables.quorum_variants = [0; 1; 2] /\
+  V.gen.C17Tables.validation_modes = [0; 1] /\
+  V.gen.C17Tables.config_fields = [0; 1; 2; 3; 4; 5; 6] /\
+  V.gen.C17Tables.config_defaults = [(0, 0); (1, 1); (2, 2); (3, 3); (4, 4); (5, 5); (6, 6)] /\
+  V.gen.C17Tables.builder_setters = [(0, 0); (1, 1); (2, 2); (3, 3); (4, 4); (5, 5); (6, 6)] /\
+  V.gen.C17Tables.clock_reads = [1; 3].
+Proof. exact tables_match. Qed.
+Print Assumptions C17_source_tables_covered.
+
+(* observation (outside the property text; witness corpus/C17/w1_*.case runs against the real
+   store): the keys registered in `local_providers` are not bounded by max_provider_keys *)
+Theorem C17_local_registrations_outlive_provider_keys :
+  exists c i h,
+    1 <= max_per_key c /\ max_keys c = 1 /\ mono 0 h /\
+    length (pkeys (ts_store (tfinal c i h))) = 1%nat /\
+    length (locals (ts_store (tfinal c i h))) = 2%nat /\
+    length (ts_quorum (tfinal c i h)) = 2%nat.
+Proof. exact local_registrations_outlive_provider_keys. Qed.
+Print Assumptions C17_local_registrations_outlive_provider_keys.
+
+(* ---- the oracle prop_ok judges what the theorems state ---- *)
+
+(* a state the oracle accepts satisfies the invariant of C17_bounds_sorted *)
+Theorem C17_oracle_invariant_sound :
+  forall c s, V.C17.Glue.inv_b c s = true -> Inv c s.
+Proof. exact V.C17.GlueProofs.inv_b_sound. Qed.
+Print Assumptions C17_oracle_invariant_sound.
+
+(* and it accepts every state that satisfies it and keeps one entry per provider *)
+Theorem C17_oracle_invariant_complete :
+  forall c s, Inv c s -> Forall (fun kp => NoDup (map p_id (snd kp))) (pkeys s) ->
+  V.C17.Glue.inv_b c s = true.
+Proof. exact V.C17.GlueProofs.inv_b_complete. Qed.
+Print Assumptions C17_oracle_invariant_complete.
+
+(* the provider-list specification the oracle recomputes is the one of C17_put_provider_spec *)
+Theorem C17_oracle_spec_is_theorem_spec :
+  forall n pr ps, V.C17.Glue.spec_put n pr ps = spec_put n pr ps.
+Proof. exact V.C17.GlueProofs.glue_spec_put_eq. Qed.
+Print Assumptions C17_oracle_spec_is_theorem_spec.
